@@ -26,7 +26,7 @@ PROP = dict(
         "the worker-process harness (harness/src/fework.rs) that attributes a process death to the text being analysed",
     ],
     assumptions=[
-        "the confirmed crashes (D45, D53, D53b tuple cycle, D54-D57, D60, D64-D66, D76 duplicate parameter + default, D77 diverging match scrutinee, D79 compound assignment on a user Index type, D80 let in a default value, D82 namespace-qualified type as qualifier / value, D83 let in a variant-field default; all fixed) are hard regression inputs "
+        "the confirmed crashes (D45, D53, D53b tuple cycle, D54-D57, D60, D64-D66, D76 duplicate parameter + default, D77 diverging match scrutinee, D79 compound assignment on a user Index type, D80 let in a default value, D82 namespace-qualified type as qualifier / value, D83 let in a variant-field default, D84 for loop in a default value; all fixed) are hard regression inputs "
         "(fecorpus::GATES), run in a child process before the stream: a crash on any of them is a failing input; nothing is gated",
         "only the main file is damaged; imports of the corpus programs are left unresolved",
     ],
